@@ -2,8 +2,10 @@
 import ast
 
 from .. import cachecoh
-from ..algebra import Alg, Uninterpreted, atom, const, opaque_name
+from ..algebra import RF, Alg, Uninterpreted, atom, const, opaque_name
+from ..flow import Taint, bindings, const_value, names
 from ..model import AnalysisError, attr_chain, call_name, stmts_in
+from ..pe import PE, K, Raised
 
 EXPLANATION = (
     "Static rules (no execution). R15.1 additivity: the path length is the sum of one length per stored segment "
@@ -44,65 +46,161 @@ def run(ctx):
     ctx.need(n >= 8, "R15.5", "too few mutating methods recognised (%d)" % n)
 
 
+def _passes(call, pname, pos):
+    """the call forwards the caller's parameter pname (as keyword of the same name or positionally at pos)"""
+    for k in call.keywords:
+        if k.arg == pname and isinstance(k.value, ast.Name) and k.value.id == pname:
+            return True
+    return len(call.args) > pos and isinstance(call.args[pos], ast.Name) and call.args[pos].id == pname
+
+
 def additivity(ctx):
     fn = ctx.fn("Shape._calc_lengths", "R15.1")
-    src = ast.unparse(fn).replace(" ", "")
-    ok = "lengths=[each.length(error=error,min_depth=min_depth)foreachinsegments]" in src and "self._length=sum(lengths)" in src
+    segp = fn.args.args[3].arg if len(fn.args.args) > 3 else "segments"
+    # the per-segment length list: [x.length(error=.., min_depth=..) for x in <segments>]
+    per = []
+    for tg, v, n in bindings(fn):
+        if isinstance(tg, ast.Name) and isinstance(v, (ast.ListComp, ast.GeneratorExp)) and len(v.generators) == 1 and isinstance(v.generators[0].target, ast.Name) \
+                and isinstance(v.elt, ast.Call) and isinstance(v.elt.func, ast.Attribute) and v.elt.func.attr == "length" \
+                and isinstance(v.elt.func.value, ast.Name) and v.elt.func.value.id == v.generators[0].target.id \
+                and isinstance(v.generators[0].iter, ast.Name) and v.generators[0].iter.id == segp and not v.generators[0].ifs:
+            per.append((tg.id, v.elt))
+    ok = len(per) == 1 and _passes(per[0][1], "error", 0) and _passes(per[0][1], "min_depth", 1)
+    L = per[0][0] if per else None
+    tot = Taint(fn, lambda n: isinstance(n, ast.Call) and call_name(n) == "sum" and len(n.args) == 1 and isinstance(n.args[0], ast.Name) and n.args[0].id == L, through_containers=False)
+    st_total = [x for x in ast.walk(fn) if isinstance(x, ast.Assign) and attr_chain(x.targets[0]) == ["self", "_length"]]
+    ok = ok and bool(st_total) and all(tot.derived(x.value) for x in st_total)
     ctx.ob("R15.1", "Shape._calc_lengths[sum of segment lengths]", ok, "", fn.lineno, "total length = sum over all segments of their lengths")
-    ok = "self._lengths=[each/self._lengthforeachinlengths]" in src
-    ctx.ob("R15.1", "Shape._calc_lengths[fractions]", ok, "", fn.lineno, "fractions are length/total in segment order")
-    ok = "ifsegmentsisNone:segments=self.segments(False)" in src.replace("\n", "")
+
+    def is_total(e):
+        return attr_chain(e) == ["self", "_length"] or (isinstance(e, ast.Name) and e.id in tot.names)
+
+    st_fr = [x for x in ast.walk(fn) if isinstance(x, ast.Assign) and attr_chain(x.targets[0]) == ["self", "_lengths"]]
+    fr_ok = False
+    for x in st_fr:
+        v = x.value
+        if isinstance(v, ast.ListComp) and len(v.generators) == 1 and isinstance(v.generators[0].target, ast.Name) and isinstance(v.generators[0].iter, ast.Name) \
+                and v.generators[0].iter.id == L and not v.generators[0].ifs and isinstance(v.elt, ast.BinOp) and isinstance(v.elt.op, ast.Div) \
+                and isinstance(v.elt.left, ast.Name) and v.elt.left.id == v.generators[0].target.id and is_total(v.elt.right):
+            fr_ok = True
+    others = [x for x in st_fr if not (isinstance(x.value, ast.ListComp)) and not (isinstance(x.value, ast.Name) and x.value.id == L)]
+    ctx.ob("R15.1", "Shape._calc_lengths[fractions]", fr_ok and not others, "; ".join(ast.unparse(x)[:70] for x in st_fr), fn.lineno, "fractions are length/total in segment order")
+    dflt = [x for x in ast.walk(fn) if isinstance(x, ast.Assign) and isinstance(x.targets[0], ast.Name) and x.targets[0].id == segp and isinstance(x.value, ast.Call)
+            and attr_chain(x.value.func) == ["self", "segments"]]
+    ok = bool(dflt) and all(any(const_value(ctx.m, a, "?") is False for a in list(x.value.args) + [k.value for k in x.value.keywords]) for x in dflt)
     ctx.ob("R15.1", "Shape._calc_lengths[untransformed decomposition]", ok, "", fn.lineno, "lengths are taken over the object's own (untransformed) segments")
     base = ctx.fn("PathSegment.length", "R15.1")
-    rets = [s for s in base.body if isinstance(s, ast.Return)]
+    rets = [x for x in ast.walk(base) if isinstance(x, ast.Return)]
     ok = len(rets) == 1 and isinstance(rets[0].value, ast.Constant) and rets[0].value.value == 0
     ctx.ob("R15.1", "PathSegment.length[base is 0]", ok, "", base.lineno, "a segment kind without geometry contributes nothing")
     ctx.ob("R15.1", "Move.length[inherits 0]", ctx.m.owner("Move.length") == "PathSegment", ctx.m.owner("Move.length"), base.lineno, "moves contribute nothing to the length")
     ln = ctx.fn("Shape.length", "R15.1")
-    src = ast.unparse(ln).replace(" ", "")
-    ctx.ob("R15.1", "Shape.length", "self._calc_lengths(error,min_depth)" in src and "returnself._length" in src, "", ln.lineno, "length() returns the computed total")
+    calls = [c for c in ast.walk(ln) if isinstance(c, ast.Call) and attr_chain(c.func) == ["self", "_calc_lengths"]]
+    rets = [x for x in ast.walk(ln) if isinstance(x, ast.Return)]
+    ok = bool(calls) and all(_passes(c, "error", 0) and _passes(c, "min_depth", 1) for c in calls) and bool(rets) and all(attr_chain(r.value) == ["self", "_length"] for r in rets) \
+        and min(c.lineno for c in calls) <= min(r.lineno for r in rets)
+    ctx.ob("R15.1", "Shape.length", ok, "", ln.lineno, "length() returns the computed total")
 
 
 def point_t(ctx):
     fn = ctx.fn("Shape.point", "R15.2")
-    src = ast.unparse(fn)
+    pos = fn.args.args[1].arg
+    segs = None
+    for tg, v, n in bindings(fn):
+        if isinstance(tg, ast.Name) and isinstance(v, ast.Call) and attr_chain(v.func) == ["self", "segments"]:
+            segs = tg.id
+    ctx.need(segs is not None, "R15.2", "Shape.point: segment list local not found")
     # shortcuts
-    sc = [s for s in ast.walk(fn) if isinstance(s, ast.If) and isinstance(s.test, ast.Compare) and ast.unparse(s.test.left) == "position" and isinstance(s.body[0], ast.Return)]
-    lo = [s for s in sc if isinstance(s.test.ops[0], (ast.LtE, ast.Lt)) and ast.literal_eval(s.test.comparators[0]) == 0]
-    hi = [s for s in sc if isinstance(s.test.ops[0], (ast.GtE, ast.Gt)) and ast.literal_eval(s.test.comparators[0]) == 1]
-    ok = len(lo) == 1 and ast.unparse(lo[0].body[0].value) == "segments[0].point(position)" and len(hi) == 1 and ast.unparse(hi[0].body[0].value) == "segments[-1].point(position)"
+
+    def end_shortcut(bound, index, ops):
+        for x in ast.walk(fn):
+            if isinstance(x, ast.If) and isinstance(x.test, ast.Compare) and len(x.test.ops) == 1 and isinstance(x.test.left, ast.Name) and x.test.left.id == pos \
+                    and isinstance(x.test.ops[0], ops) and const_value(ctx.m, x.test.comparators[0], None) == bound and x.body and isinstance(x.body[0], ast.Return):
+                v = x.body[0].value
+                if isinstance(v, ast.Call) and isinstance(v.func, ast.Attribute) and v.func.attr == "point" and isinstance(v.func.value, ast.Subscript) \
+                        and isinstance(v.func.value.value, ast.Name) and v.func.value.value.id == segs and const_value(ctx.m, v.func.value.slice, None) == index:
+                    return True
+        return False
+
+    ok = end_shortcut(0, 0, (ast.LtE, ast.Lt)) and end_shortcut(1, -1, (ast.GtE, ast.Gt))
     ctx.ob("R15.2", "Shape.point[ends]", ok, "", fn.lineno, "point(0) is on the first segment, point(1) on the last")
-    loops = [s for s in fn.body if isinstance(s, ast.For)]
+    loops = [x for x in fn.body if isinstance(x, ast.For)]
     ctx.need(len(loops) == 1, "R15.2", "Shape.point: loop not found")
     lp = loops[0]
-    ok = ast.unparse(lp.iter) == "enumerate(segments)"
+    it = lp.iter
+    ok = isinstance(it, ast.Call) and call_name(it) == "enumerate" and len(it.args) == 1 and isinstance(it.args[0], ast.Name) and it.args[0].id == segs \
+        and isinstance(lp.target, ast.Tuple) and len(lp.target.elts) == 2 and all(isinstance(e, ast.Name) for e in lp.target.elts)
     ctx.ob("R15.2", "Shape.point[walks segments in order]", ok, ast.unparse(lp.iter), lp.lineno, "")
-    alg = Alg()
-    end_def = [s for s in lp.body if isinstance(s, ast.Assign) and ast.unparse(s.targets[0]) == "segment_end"]
-    ok = len(end_def) == 1 and ast.unparse(end_def[0].value).replace(" ", "") in ("segment_start+self._lengths[index]", "self._lengths[index]+segment_start")
-    ctx.ob("R15.2", "Shape.point[cumulative end]", ok, ast.unparse(end_def[0]) if end_def else "", lp.lineno, "segment interval end = start + the segment's fraction")
-    sel = [s for s in lp.body if isinstance(s, ast.If)]
+    ctx.need(ok, "R15.2", "Shape.point: loop form not recognised")
+    idx, seg = lp.target.elts[0].id, lp.target.elts[1].id
+    FR = atom("FRACTION")
+    # E = S + self._lengths[index]
+    S = E = None
+    for x in lp.body:
+        if isinstance(x, ast.Assign) and isinstance(x.targets[0], ast.Name):
+            try:
+                got = ev_frac(x.value, idx)
+            except Uninterpreted:
+                continue
+            for nm in names(x.value):
+                if got == atom(nm) + FR:
+                    S, E = nm, x.targets[0].id
+    ctx.ob("R15.2", "Shape.point[cumulative end]", S is not None, "running start %s, interval end %s" % (S, E), lp.lineno, "segment interval end = start + the segment's fraction")
+    ctx.need(S is not None, "R15.2", "Shape.point: cumulative fraction not recognised")
+    sel = [x for x in lp.body if isinstance(x, ast.If)]
     ok = False
     detail = ""
-    if len(sel) == 1:
-        t = sel[0].test
-        cmp_ok = isinstance(t, ast.Compare) and ((ast.unparse(t.left) == "segment_end" and isinstance(t.ops[0], (ast.GtE, ast.Gt)) and ast.unparse(t.comparators[0]) == "position")
-                                                or (ast.unparse(t.left) == "position" and isinstance(t.ops[0], (ast.LtE, ast.Lt)) and ast.unparse(t.comparators[0]) == "segment_end"))
-        asg = [s for s in sel[0].body if isinstance(s, ast.Assign)]
-        brk = any(isinstance(s, ast.Break) for s in sel[0].body)
-        if asg:
-            got = Alg().ev(asg[0].value)
-            want = (atom("position") - atom("segment_start")) / (atom("segment_end") - atom("segment_start"))
-            detail = str(got)
-            ok = cmp_ok and brk and got == want and ast.unparse(asg[0].targets[0]) == "segment_pos"
+    hit = None
+    for x in sel:
+        t = x.test
+        if isinstance(t, ast.Compare) and len(t.ops) == 1 and isinstance(t.left, ast.Name) and isinstance(t.comparators[0], ast.Name):
+            l, r, op = t.left.id, t.comparators[0].id, t.ops[0]
+            if (l == E and r == pos and isinstance(op, (ast.GtE, ast.Gt))) or (l == pos and r == E and isinstance(op, (ast.LtE, ast.Lt))):
+                hit = x
+    want = (atom(pos) - atom(S)) / (atom(E) - atom(S))
+    if hit is not None:
+        env = Alg()
+        for y in hit.body:
+            if isinstance(y, ast.Assign):
+                try:
+                    env.assign(y)
+                except Uninterpreted:
+                    pass
+        leaves = any(isinstance(y, (ast.Break, ast.Return)) for y in hit.body)
+        # the point call that produces the result: on the loop's segment, with the local parameter
+        pcalls = [c for c in ast.walk(fn) if isinstance(c, ast.Call) and isinstance(c.func, ast.Attribute) and c.func.attr == "point" and isinstance(c.func.value, ast.Name)
+                  and c.func.value.id == seg and len(c.args) == 1 and c.lineno >= hit.lineno]
+        vals = []
+        for c in pcalls:
+            try:
+                vals.append(env.ev(c.args[0]))
+            except Uninterpreted:
+                vals.append(None)
+        detail = "; ".join(str(v) for v in vals)
+        ok = leaves and any(v is not None and v == want for v in vals)
     ctx.ob("R15.2", "Shape.point[local parameter]", ok, detail, lp.lineno, "the point lies at fraction (t - start)/(end - start) of the segment whose interval contains t")
-    carry = [ast.unparse(s).replace(" ", "") for s in lp.body if isinstance(s, ast.Assign)]
-    ctx.ob("R15.2", "Shape.point[carried start]", "segment_start=segment_end" in carry and carry.index("segment_start=segment_end") == len(carry) - 1, "; ".join(carry), lp.lineno,
-           "the next interval starts where this one ended")
-    ret = fn.body[-1]
-    ctx.ob("R15.2", "Shape.point[result]", isinstance(ret, ast.Return) and ast.unparse(ret.value) == "segment.point(segment_pos)", ast.unparse(ret), ret.lineno, "")
-    calc = "self._calc_lengths(" in src and "if self._length is None" in src
-    ctx.ob("R15.2", "Shape.point[uses the cached fractions]", calc, "", fn.lineno, "fractions are computed on demand when absent")
+    tops = [x for x in lp.body if isinstance(x, ast.Assign) and isinstance(x.targets[0], ast.Name) and x.targets[0].id == S]
+    okc = len(tops) == 1 and isinstance(tops[0].value, ast.Name) and tops[0].value.id == E and (hit is None or tops[0].lineno > hit.lineno)
+    ctx.ob("R15.2", "Shape.point[carried start]", okc, "; ".join(ast.unparse(x) for x in tops), lp.lineno, "the next interval starts where this one ended")
+    rets = [r for r in ast.walk(fn) if isinstance(r, ast.Return) and r.lineno >= lp.lineno and isinstance(r.value, ast.Call) and isinstance(r.value.func, ast.Attribute) and r.value.func.attr == "point"]
+    ctx.ob("R15.2", "Shape.point[result]", bool(rets) and all(isinstance(r.value.func.value, ast.Name) and r.value.func.value.id == seg for r in rets), "", lp.lineno, "the result is a point of the selected segment")
+    calc = [c for c in ast.walk(fn) if isinstance(c, ast.Call) and attr_chain(c.func) == ["self", "_calc_lengths"] and c.lineno < lp.lineno]
+    ctx.ob("R15.2", "Shape.point[uses the cached fractions]", bool(calc), "", fn.lineno, "fractions are computed on demand when absent")
+
+
+class _Frac(ast.NodeTransformer):
+    def __init__(self, idx):
+        self.idx = idx
+
+    def visit_Subscript(self, n):
+        if attr_chain(n.value) == ["self", "_lengths"] and isinstance(n.slice, ast.Name) and n.slice.id == self.idx:
+            return ast.Name(id="FRACTION", ctx=ast.Load())
+        return self.generic_visit(n)
+
+
+def ev_frac(expr, idx):
+    from ..model import fresh
+    return Alg().ev(_Frac(idx).visit(fresh(expr)))
 
 
 def closed_forms(ctx):
@@ -119,16 +217,49 @@ def closed_forms(ctx):
     want = atom(opaque_name("sqrt", [dx * dx + dy * dy]))
     ctx.ob("R15.3", "Point.distance", got == want, str(got), fn.lineno, "distance is the Euclidean norm of the difference")
     ln = ctx.fn("Linear.length", "R15.3")
-    rets = [ast.unparse(s.value).replace(" ", "") for s in ast.walk(ln) if isinstance(s, ast.Return)]
-    ctx.ob("R15.3", "Linear.length", any(r in ("Point.distance(self.end,self.start)", "Point.distance(self.start,self.end)") for r in rets), str(rets), ln.lineno,
+    ok = False
+    rets = [r for r in ast.walk(ln) if isinstance(r, ast.Return) and r.value is not None]
+    for r in rets:
+        v = r.value
+        if isinstance(v, ast.Call) and attr_chain(v.func) == ["Point", "distance"] and len(v.args) == 2 and {".".join(attr_chain(a) or []) for a in v.args} == {"self.start", "self.end"}:
+            ok = True
+        if isinstance(v, ast.Call) and isinstance(v.func, ast.Attribute) and v.func.attr in ("distance", "distance_to") and len(v.args) == 1 \
+                and {".".join(attr_chain(v.func.value) or []), ".".join(attr_chain(v.args[0]) or [])} == {"self.start", "self.end"}:
+            ok = True
+        if isinstance(v, ast.Call) and call_name(v) == "abs" and len(v.args) == 1 and isinstance(v.args[0], ast.BinOp) and isinstance(v.args[0].op, ast.Sub) \
+                and {".".join(attr_chain(v.args[0].left) or []), ".".join(attr_chain(v.args[0].right) or [])} == {"self.start", "self.end"}:
+            ok = True
+    others = [r for r in rets if not (isinstance(r.value, ast.Call)) and not (isinstance(r.value, ast.Constant) and r.value.value == 0)]
+    ctx.ob("R15.3", "Linear.length", ok and not others, "; ".join(ast.unparse(r.value)[:60] for r in rets), ln.lineno,
            "the length of a line (and of a close) is the distance between its end points")
     al = ctx.fn("Arc.length", "R15.3")
+    # the circle case: under the test |rx - ry| < (small), the result is |r x sweep|
+    alg = Alg()
     circ = None
-    for s in ast.walk(al):
-        if isinstance(s, ast.If) and "ERROR" in ast.unparse(s.test) and isinstance(s.body[0], ast.Return):
-            circ = s
-    ok = circ is not None and Alg().ev(circ.body[0].value) == atom(opaque_name("abs", [atom("self.rx") * atom("self.sweep")]))
-    ctx.ob("R15.3", "Arc.length[circle]", ok, ast.unparse(circ.body[0]) if circ is not None else "", al.lineno, "a circular arc has length |r x sweep|")
+    for x in al.body:
+        if isinstance(x, ast.Assign):
+            try:
+                alg.assign(x)
+            except Uninterpreted:
+                pass
+        if isinstance(x, ast.If) and isinstance(x.test, ast.Compare) and len(x.test.ops) == 1 and isinstance(x.test.ops[0], (ast.Lt, ast.LtE)) and x.body and isinstance(x.body[0], ast.Return):
+            try:
+                lhs = alg.ev(x.test.left)
+            except Uninterpreted:
+                continue
+            d1 = atom(opaque_name("abs", [atom("self.rx") - atom("self.ry")]))
+            d2 = atom(opaque_name("abs", [atom("self.ry") - atom("self.rx")]))
+            if lhs == d1 or lhs == d2:
+                circ = x
+                break
+    ok = False
+    if circ is not None:
+        try:
+            got = alg.ev(circ.body[0].value)
+            ok = got == atom(opaque_name("abs", [atom("self.rx") * atom("self.sweep")])) or got == atom(opaque_name("abs", [atom("self.ry") * atom("self.sweep")]))
+        except Uninterpreted:
+            ok = False
+    ctx.ob("R15.3", "Arc.length[circle]", ok, ast.unparse(circ.body[0]) if circ is not None else "circle test not found", al.lineno, "a circular arc has length |r x sweep|")
     # quadratic closed form
     q = ctx.fn("QuadraticBezier.length", "R15.3")
     pts = {"self.start": [atom("x0"), atom("y0")], "self.control": [atom("x1"), atom("y1")], "self.end": [atom("x2"), atom("y2")]}
@@ -161,7 +292,17 @@ def closed_forms(ctx):
     BA = B / A2
     lg = atom(opaque_name("log", [(const(2) * A2 + BA + Sabc) / (BA + C2)]))
     want_s = (A32 * Sabc + A2 * B * (Sabc - C2) + (const(4) * C * A - B * B) * lg) / (const(4) * A32)
-    got = alg.env.get("s")
+    got = None
+    for x in tr[0].body:
+        if isinstance(x, ast.Return) and x.value is not None:
+            try:
+                got = alg.ev(x.value)
+            except Uninterpreted:
+                got = None
+    if got is None:
+        rets = [x for x in q.body if isinstance(x, ast.Return) and isinstance(x.value, ast.Name)]
+        if rets:
+            got = alg.env.get(rets[-1].value.id)
     ctx.ob("R15.3", "QuadraticBezier.length[closed form]", got is not None and not isinstance(got, list) and got == want_s, str(got)[:120], q.lineno,
            "assembled expression differs from the closed-form arc length of a quadratic Bezier")
 
@@ -170,67 +311,196 @@ def quad_fallback(ctx):
     """Collinear (anti-parallel) quadratic: speed | |b| - 2|a| t | with a = p0 - 2 p1 + p2, b = 2 (p1 - p0).  The curve turns
     back inside (0, 1) iff k = |b|/|a| < 2; length |b| - |a| when k >= 2, else |a| (k^2/2 - k + 1); a = 0 gives |b|."""
     q = ctx.fn("QuadraticBezier.length", "R15.3")
-    tr = [s for s in q.body if isinstance(s, ast.Try)]
+    tr = [x for x in q.body if isinstance(x, ast.Try)]
     ctx.need(len(tr) == 1 and tr[0].handlers, "R15.3", "QuadraticBezier.length: fallback handler not found")
     hb = tr[0].handlers[0].body
-    A_, B_ = atom(opaque_name("abs", [atom("a")])), atom(opaque_name("abs", [atom("b")]))
-    top = [s for s in hb if isinstance(s, ast.If)]
-    ctx.need(len(top) == 1, "R15.3", "QuadraticBezier.length fallback: structure not recognised")
-    t0 = top[0]
-    ok = isinstance(t0.test, ast.Compare) and Alg().ev(t0.test.left) == A_ and isinstance(t0.test.ops[0], (ast.Lt, ast.LtE)) and isinstance(t0.test.comparators[0], ast.Constant) and 0 <= t0.test.comparators[0].value <= 1e-6
-    got0 = Alg().ev(t0.body[0].value) if t0.body and isinstance(t0.body[0], ast.Assign) else None
-    ctx.ob("R15.3", "QuadraticBezier.length[fallback: a = 0]", ok and got0 is not None and got0 == B_, ast.unparse(t0.test), t0.lineno, "with a = 0 the curve is a straight run of length |b|")
-    alg = Alg()
-    inner = None
-    for s in t0.orelse:
-        if isinstance(s, ast.Assign):
-            alg.assign(s)
-        if isinstance(s, ast.If):
-            inner = s
-    ctx.need(inner is not None, "R15.3", "QuadraticBezier.length fallback: threshold test not found")
-    t = inner.test
-    ok_thr = False
-    if isinstance(t, ast.Compare) and len(t.ops) == 1 and isinstance(t.ops[0], (ast.GtE, ast.Gt)):
-        diff = alg.ev(t.left) - alg.ev(t.comparators[0])
-        ok_thr = diff == (B_ - const(2) * A_) / A_ or diff == B_ - const(2) * A_
-    ctx.ob("R15.3", "QuadraticBezier.length[fallback: turning threshold]", ok_thr, ast.unparse(t), inner.lineno,
+    after = q.body[q.body.index(tr[0]) + 1:]
+    # the two vector locals: a = start - 2 control + end, b = 2 (control - start), recognised by their definitions (checked in the closed form rule)
+    vecs = []
+    for x in q.body:
+        if isinstance(x, ast.Assign) and isinstance(x.targets[0], ast.Name) and x is not tr[0]:
+            vecs.append(x.targets[0].id)
+    ctx.need(len(vecs) >= 2, "R15.3", "QuadraticBezier.length: vector locals not found")
+    an, bn = vecs[0], vecs[1]
+    A_, B_ = atom(opaque_name("abs", [atom(an)])), atom(opaque_name("abs", [atom(bn)]))
+    seen = {"zero": [], "thr": [], "wrong": []}
+
+    def make(a_zero, mono):
+        def oracle(pe, test):
+            if isinstance(test, ast.Compare) and len(test.ops) == 1:
+                l, r = pe.ev(test.left), pe.ev(test.comparators[0])
+                op = test.ops[0]
+                if isinstance(l, RF) and isinstance(r, RF):
+                    if l == A_ and r.is_const() and 0 <= r.constval() <= 1e-6 and isinstance(op, (ast.Lt, ast.LtE)):
+                        seen["zero"].append(test)
+                        return a_zero
+                    if r == A_ and l.is_const() and 0 <= l.constval() <= 1e-6 and isinstance(op, (ast.Gt, ast.GtE)):
+                        seen["zero"].append(test)
+                        return a_zero
+                    # the turning test in any of its spellings: k >= 2, |b| >= 2|a|, 2 <= k, k < 2 ...
+                    diff = l - r
+                    forms = [(B_ - const(2) * A_) / A_, B_ - const(2) * A_]
+                    # the same family with another constant: a turning test with the wrong threshold
+                    for cand, scale in (((B_ - diff) / A_, 1), (B_ / A_ - diff, 1), ((B_ + diff) / A_, -1), (B_ / A_ + diff, -1)):
+                        if cand.is_const() and cand.constval() != 2 and cand.constval() > 0:
+                            seen["wrong"].append((test, cand.constval()))
+                            ge = isinstance(op, (ast.GtE, ast.Gt))
+                            return mono if (ge == (scale == 1)) else not mono
+                    if any(diff == f for f in forms) and isinstance(op, (ast.GtE, ast.Gt)):
+                        seen["thr"].append(test)
+                        return mono
+                    if any(diff == -f for f in forms) and isinstance(op, (ast.LtE, ast.Lt)):
+                        seen["thr"].append(test)
+                        return mono
+                    if any(diff == f for f in forms) and isinstance(op, (ast.Lt, ast.LtE)):
+                        seen["thr"].append(test)
+                        return not mono
+                    if any(diff == -f for f in forms) and isinstance(op, (ast.Gt, ast.GtE)):
+                        seen["thr"].append(test)
+                        return not mono
+            return None
+        return oracle
+
+    def result(a_zero, mono):
+        pe = PE(ctx.m, "R15.3", "QuadraticBezier.length fallback", oracle=make(a_zero, mono))
+        res = pe.run(hb + after)
+        if res is None or res.kind != "return" or res.value is None:
+            raise AnalysisError("R15.3", "QuadraticBezier.length fallback: no value returned")
+        return pe.ev(res.value)
+
+    g0 = result(True, True)
+    ctx.ob("R15.3", "QuadraticBezier.length[fallback: a = 0]", isinstance(g0, RF) and g0 == B_ and bool(seen["zero"]), str(g0), hb[0].lineno, "with a = 0 the curve is a straight run of length |b|")
+    seen["thr"] = []
+    g1 = result(False, True)
+    g2 = result(False, False)
+    ctx.ob("R15.3", "QuadraticBezier.length[fallback: turning threshold]", bool(seen["thr"]) and not seen["wrong"],
+           "; ".join(sorted({ast.unparse(t) for t in seen["thr"]} | {"%s (threshold |b| vs %s|a|)" % (ast.unparse(t), c) for t, c in seen["wrong"]})), hb[0].lineno,
            "the curve runs monotonically exactly when |b| >= 2|a| (the speed |b| - 2|a|t does not change sign on [0, 1])")
-    a1 = Alg(env=dict(alg.env))
-    a2 = Alg(env=dict(alg.env))
-    g1 = a1.ev(inner.body[0].value) if inner.body and isinstance(inner.body[0], ast.Assign) else None
-    for s in inner.orelse:
-        if isinstance(s, ast.Assign):
-            a2.assign(s)
-    g2 = a2.env.get("s")
     kk = B_ / A_
-    ctx.ob("R15.3", "QuadraticBezier.length[fallback: monotone run]", g1 is not None and g1 == B_ - A_, str(g1), inner.lineno, "length |b| - |a| when the curve does not turn back")
-    ctx.ob("R15.3", "QuadraticBezier.length[fallback: fold-back]", g2 is not None and g2 == A_ * (kk * kk / const(2) - kk + const(1)), str(g2), inner.lineno,
+    ctx.ob("R15.3", "QuadraticBezier.length[fallback: monotone run]", isinstance(g1, RF) and g1 == B_ - A_, str(g1), hb[0].lineno, "length |b| - |a| when the curve does not turn back")
+    ctx.ob("R15.3", "QuadraticBezier.length[fallback: fold-back]", isinstance(g2, RF) and g2 == A_ * (kk * kk / const(2) - kk + const(1)), str(g2), hb[0].lineno,
            "length |a| (k^2/2 - k + 1) when the curve turns back at t = k/2")
+
+
+def _nnf_disjuncts(test, negate=False):
+    """Disjuncts of a test in negation normal form, each as (unparsed comparison with polarity); None when the test is not a disjunction."""
+    if isinstance(test, ast.UnaryOp) and isinstance(test.op, ast.Not):
+        return _nnf_disjuncts(test.operand, not negate)
+    if isinstance(test, ast.BoolOp):
+        is_or = isinstance(test.op, ast.Or) != negate
+        if not is_or:
+            return None
+        out = []
+        for v in test.values:
+            d = _nnf_disjuncts(v, negate)
+            if d is None:
+                return None
+            out.extend(d)
+        return out
+    return [(test, negate)]
 
 
 def subdivision(ctx):
     fn = ctx.fn("PathSegment.segment_length", "R15.4")
-    mid = [s for s in fn.body if isinstance(s, ast.Assign) and ast.unparse(s.targets[0]) == "mid"]
-    ok = len(mid) == 1 and Alg().ev(mid[0].value) == (atom("start") + atom("end")) / const(2)
-    ctx.ob("R15.4", "segment_length[midpoint]", ok, ast.unparse(mid[0]) if mid else "", fn.lineno, "the interval is bisected at its midpoint")
-    rec = [c for c in ast.walk(fn) if isinstance(c, ast.Call) and ast.unparse(c.func) == "PathSegment.segment_length"]
-    args = [[ast.unparse(a) for a in c.args[:5]] for c in rec]
-    ok = len(rec) == 2 and ["curve", "start", "mid", "start_point", "mid_point"] in args and ["curve", "mid", "end", "mid_point", "end_point"] in args
+    P = [a.arg for a in fn.args.args]
+    ctx.need(len(P) >= 8, "R15.4", "segment_length: parameter list changed: %s" % P)
+    curve, start, end, sp, ep, err, mind, depth = P[:8]
+    rec0 = [c for c in ast.walk(fn) if isinstance(c, ast.Call) and attr_chain(c.func) in (["PathSegment", "segment_length"], ["self", "segment_length"], ["curve", "segment_length"])]
+    # the split parameter: upper bound of one recursive call and lower bound of the other
+    ups = {c.args[2].id for c in rec0 if len(c.args) > 2 and isinstance(c.args[2], ast.Name)}
+    los = {c.args[1].id for c in rec0 if len(c.args) > 1 and isinstance(c.args[1], ast.Name)}
+    split = sorted((ups & los) - {start, end})
+    if len(rec0) != 2 or len(split) != 1:
+        ctx.ob("R15.4", "segment_length[both halves]", False, "%d recursive call(s); split parameter candidates %s" % (len(rec0), split), fn.lineno,
+               "the recursion covers [start, mid] and [mid, end] with the matching end points")
+        return
+    mid = split[0]
+    defs = [v for tg, v, n in bindings(fn) if isinstance(tg, ast.Name) and tg.id == mid]
+    okm = len(defs) == 1
+    if okm:
+        try:
+            okm = Alg().ev(defs[0]) == (atom(start) + atom(end)) / const(2)
+        except Uninterpreted:
+            okm = False
+    ctx.ob("R15.4", "segment_length[midpoint]", okm, "; ".join(ast.unparse(d) for d in defs), fn.lineno, "the interval is bisected at its midpoint")
+    mps = [tg.id for tg, v, n in bindings(fn) if isinstance(tg, ast.Name) and isinstance(v, ast.Call) and attr_chain(v.func) == [curve, "point"] and len(v.args) == 1
+           and isinstance(v.args[0], ast.Name) and v.args[0].id == mid]
+    ctx.need(len(mps) == 1, "R15.4", "segment_length: midpoint sample not found")
+    mp = mps[0]
+    rec = [c for c in ast.walk(fn) if isinstance(c, ast.Call) and attr_chain(c.func) in (["PathSegment", "segment_length"], ["self", "segment_length"], ["curve", "segment_length"])]
+
+    def arg(c, i):
+        if i < len(c.args):
+            return c.args[i].id if isinstance(c.args[i], ast.Name) else ast.unparse(c.args[i])
+        for k in c.keywords:
+            if k.arg == P[i]:
+                return k.value.id if isinstance(k.value, ast.Name) else ast.unparse(k.value)
+        return None
+
+    args = [[arg(c, i) for i in range(5)] for c in rec]
+    ok = len(rec) == 2 and [curve, start, mid, sp, mp] in args and [curve, mid, end, mp, ep] in args
     ctx.ob("R15.4", "segment_length[both halves]", ok, str(args), fn.lineno, "the recursion covers [start, mid] and [mid, end] with the matching end points")
-    rets = [s for s in ast.walk(fn) if isinstance(s, ast.Return)]
-    ok = any(isinstance(r.value, ast.BinOp) and isinstance(r.value.op, ast.Add) and all(isinstance(x, ast.Call) for x in (r.value.left, r.value.right)) for r in rets)
+    ok = False
+    if len(rec) == 2:
+        t1 = Taint(fn, lambda n: n is rec[0], through_containers=False)
+        t2 = Taint(fn, lambda n: n is rec[1], through_containers=False)
+        for r in ast.walk(fn):
+            if isinstance(r, ast.Return) and isinstance(r.value, ast.BinOp) and isinstance(r.value.op, ast.Add):
+                l, rr = r.value.left, r.value.right
+                if (t1.derived(l) and t2.derived(rr) and not t2.derived(l) and not t1.derived(rr)) or (t2.derived(l) and t1.derived(rr) and not t1.derived(l) and not t2.derived(rr)):
+                    ok = True
     ctx.ob("R15.4", "segment_length[sum of halves]", ok, "", fn.lineno, "the length of the interval is the sum of the lengths of its halves")
-    tests = [s for s in fn.body if isinstance(s, ast.If) and any(isinstance(x, ast.Return) for x in s.body)]
-    t = ast.unparse(tests[-1].test) if tests else ""
-    ok = "error" in t and "min_depth" in t and "depth" in t and " or " in t
+    # the condition under which the recursion happens
+    cond = None
+    for x in fn.body:
+        if isinstance(x, ast.If):
+            in_body = any(any(c is n for n in ast.walk(y)) for y in x.body for c in rec)
+            in_else = any(any(c is n for n in ast.walk(y)) for y in x.orelse for c in rec)
+            exits = bool(x.body) and isinstance(x.body[-1], ast.Return)
+            after = any(c.lineno > (x.end_lineno or x.lineno) for c in rec)
+            if in_body:
+                cond = (x.test, False)
+            elif in_else or (exits and after and not x.orelse):
+                cond = (x.test, True)
+    t = ""
+    ok = False
+    if cond is not None:
+        dis = _nnf_disjuncts(cond[0], cond[1])
+        t = ast.unparse(cond[0])
+        if dis is not None and len(dis) == 2:
+            def about(d, *nm):
+                return all(n in names(d[0]) for n in nm)
+
+            e_d = [d for d in dis if about(d, err)]
+            m_d = [d for d in dis if about(d, mind, depth)]
+            ok = len(e_d) == 1 and len(m_d) == 1 and e_d[0] is not m_d[0]
+            if ok:
+                # polarity: refine while (estimate gain > error) / while (depth < min_depth)
+                for (node, neg), small, big in ((e_d[0], None, None), (m_d[0], depth, mind)):
+                    if big is None:
+                        continue
+                    if isinstance(node, ast.Compare) and len(node.ops) == 1 and isinstance(node.left, ast.Name) and isinstance(node.comparators[0], ast.Name):
+                        l, r, op = node.left.id, node.comparators[0].id, node.ops[0]
+                        lt = (l == small and r == big and isinstance(op, (ast.Lt, ast.LtE))) or (l == big and r == small and isinstance(op, (ast.Gt, ast.GtE)))
+                        ge = (l == small and r == big and isinstance(op, (ast.GtE, ast.Gt))) or (l == big and r == small and isinstance(op, (ast.LtE, ast.Lt)))
+                        ok = ok and ((lt and not neg) or (ge and neg))
+                    else:
+                        ok = False
     ctx.ob("R15.4", "segment_length[stopping test]", ok, t, fn.lineno, "subdivision continues while the chord estimate still improves by more than the error OR the minimum depth is not reached")
     # depth increases on recursion and error/min_depth are forwarded
-    fwd = all(len(c.args) >= 8 and [ast.unparse(a) for a in c.args[5:8]] == ["error", "min_depth", "depth"] for c in rec) and any(
-        isinstance(s, ast.AugAssign) and ast.unparse(s.target) == "depth" and isinstance(s.op, ast.Add) for s in ast.walk(fn))
+    fwd = all([arg(c, 5), arg(c, 6), arg(c, 7)] == [err, mind, depth] for c in rec) and bool(rec) and any(
+        (isinstance(x, ast.AugAssign) and isinstance(x.target, ast.Name) and x.target.id == depth and isinstance(x.op, ast.Add))
+        or (isinstance(x, ast.Assign) and isinstance(x.targets[0], ast.Name) and x.targets[0].id == depth and isinstance(x.value, ast.BinOp) and isinstance(x.value.op, ast.Add) and depth in names(x.value))
+        for x in ast.walk(fn))
     ctx.ob("R15.4", "segment_length[forwards error, depth grows]", fwd, "", fn.lineno, "the requested error bound reaches every level; depth increases so the recursion terminates")
     # callers forward error/min_depth
     for qual in ("PathSegment._line_length", "CubicBezier._length_default"):
         f = ctx.fn(qual, "R15.4")
-        s = ast.unparse(f).replace(" ", "")
-        ok = ("error=error" in s and "min_depth=min_depth" in s) or ("error,min_depth" in s)
-        ctx.ob("R15.4", "%s[forwards error]" % qual, ok, "", f.lineno, "the caller's error setting must reach the subdivision")
+        fwd = False
+        for c in ast.walk(f):
+            if isinstance(c, ast.Call) and isinstance(c.func, ast.Attribute) and c.func.attr in ("segment_length", "_line_length"):
+                vals = {k.arg: k.value for k in c.keywords}
+                e_ok = ("error" in vals and isinstance(vals["error"], ast.Name) and vals["error"].id == "error") or any(isinstance(a, ast.Name) and a.id == "error" for a in c.args)
+                m_ok = ("min_depth" in vals and isinstance(vals["min_depth"], ast.Name) and vals["min_depth"].id == "min_depth") or any(isinstance(a, ast.Name) and a.id == "min_depth" for a in c.args)
+                fwd = fwd or (e_ok and m_ok)
+        ctx.ob("R15.4", "%s[forwards error]" % qual, fwd, "", f.lineno, "the caller's error setting must reach the subdivision")
